@@ -993,9 +993,12 @@ impl<'a, K: Kmer + 'a, D: Debug + 'a> Iterator for NodeKmerIter<'a, K, D> {
             for _ in 0..n {
                 self.next();
             }
-        } else {
+        } else if n < self.num_kmers - self.kmer_id {
             self.kmer_id += n;
             self.kmer = self.node_seq_slice.get_kmer::<K>(self.kmer_id);
+        } else {
+            // skipping past the last kmer: the iterator is exhausted
+            self.kmer_id = self.num_kmers;
         }
 
         self.next()
